@@ -248,6 +248,26 @@ Accepts(kind, s) ==
 \* the bytes an accepted text denotes
 Decode(kind, s) == IF kind \in PrefixedKinds THEN UnHex(SubSeq(s, 9, Len(s))) ELSE UnHex(s)
 
+\* TOLERANT READING of specifiers and unlock keys: the accepted language is wider than the printed one.
+\* Specifier.UnmarshalText accepts, besides the quoted literal, the UNQUOTED form of ANY text of at most
+\* 16 bytes (specifiers with spaces or punctuation were printed unquoted historically), and an unlock key
+\* is cut at its LAST colon.  A text such as   entropy:a:   is therefore a legal (non-canonical) text of the
+\* key [algorithm "entropy:a", empty key] -- it is NOT a corrupted   entropy:ae   (decision of the project
+\* lead, round 7: the rejection clause of the property is about a wrong length / prefix / alphabet under the
+\* SAME reading; a string that is a legal text of another value under the tolerated grammar is outside it).
+\* Corruption cases must stay outside this language unless they denote the same value (KeyTokSane, checked
+\* for every generated case): the alteration classes never put a colon into the hex part of a key.
+LastIndex(s, c) == IF \E i \in DOMAIN s : s[i] = c
+                   THEN CHOOSE i \in DOMAIN s : s[i] = c /\ \A j \in (i + 1)..Len(s) : s[j] # c ELSE 0
+PadTo16(bs) == bs \o [i \in 1..(16 - Len(bs)) |-> 0]
+BareSpecOK(s) == Len(s) <= 16 /\ (Len(s) > 0 => s[1] # QUOTE)
+AcceptsKeyBare(s) == LET i == LastIndex(s, COLON)  rest == SubSeq(s, i + 1, Len(s)) IN
+  i > 0 /\ BareSpecOK(SubSeq(s, 1, i - 1)) /\ Len(rest) % 2 = 0 /\ AllHex(rest)
+KeyDenotes(s) == LET i == LastIndex(s, COLON) IN
+  [alg |-> PadTo16(SubSeq(s, 1, i - 1)), key |-> UnHex(SubSeq(s, i + 1, Len(s)))]
+\* an altered text of the key v is outside the tolerant language, or denotes v
+KeyTokSane(v, tok) == AcceptsKeyBare(tok) => (KeyDenotes(tok).alg = v.alg /\ KeyDenotes(tok).key = v.key)
+
 \* ---------------------------------------------------------------------------
 \* corruption operators (direction A)
 Subst(s, i, c)  == [s EXCEPT ![i] = c]
